@@ -281,7 +281,10 @@ public:
                 assert(false);
             }
         }
-        const bool u = b.upper() >= 0.0f && b.lower() <= 0.0f;
+        const bool u = a.maybe_nan || b.maybe_nan ||
+            (b.upper() >= 0.0f && b.lower() <= 0.0f) ||
+            std::isinf(a.lower()) || std::isinf(a.upper()) ||
+            std::isinf(b.lower()) || std::isinf(b.upper());
         return Interval(out, u);
     }
 
